@@ -5,6 +5,8 @@ package main
 // judged on the caller's graph with the helper spliced in.
 
 import (
+	"fmt"
+	"go/token"
 	"go/types"
 	"sort"
 
@@ -123,4 +125,95 @@ func lockPairing(p *Program, r *Report) {
 		return
 	}
 	r.Check(len(leaks) == 0, "every mutex acquisition is released on every path", 0, "checked "+itoa(n)+" Lock / RLock sites of struct-field mutexes in the module: each is followed on every path to the exit by the matching Unlock / RUnlock, a deferred one, or — for a lock handed to the single caller — by the caller's release")
+}
+
+// lockReentrancy — no goroutine acquires a mutex it already holds.
+//
+// sync.Mutex and sync.RWMutex are not re-entrant. A second Lock by the holder blocks for ever; a second RLock blocks as soon as
+// a writer is waiting in between (writers are preferred), and that writer then waits for the first RLock to be released — which
+// the blocked holder never does. For every acquisition of a struct-field mutex, between it and its release(s) no call runs a
+// method of the same receiver object that (itself, or through same-receiver helpers, depth 3) acquires the same field.
+func lockReentrancy(p *Program, r *Report) {
+	// which mutex fields a function acquires on its own receiver, transitively through calls on the same receiver
+	memo := map[*ssa.Function]map[*types.Var]bool{}
+	var acquires func(fn *ssa.Function, depth int) map[*types.Var]bool
+	acquires = func(fn *ssa.Function, depth int) map[*types.Var]bool {
+		if m, ok := memo[fn]; ok {
+			return m
+		}
+		m := map[*types.Var]bool{}
+		memo[fn] = m
+		if len(fn.Params) == 0 || fn.Signature.Recv() == nil {
+			return m
+		}
+		recv := ssa.Value(fn.Params[0])
+		for _, b := range fn.Blocks {
+			for _, in := range b.Instrs {
+				if op, f, base, deferred := mutexOp(in); !deferred && f != nil && (op == "Lock" || op == "RLock") && strip(base) == recv {
+					m[f] = true
+				}
+				if depth > 0 {
+					if c := callOf(in); c != nil {
+						if _, isGo := in.(*ssa.Go); isGo {
+							continue
+						}
+						if y := c.StaticCallee(); y != nil && p.inModule(y) && y.Signature.Recv() != nil && len(c.Args) > 0 && strip(c.Args[0]) == recv {
+							for f := range acquires(y, depth-1) {
+								m[f] = true
+							}
+						}
+					}
+				}
+			}
+		}
+		return m
+	}
+	n := 0
+	for _, fn := range p.Mod {
+		if len(fn.Blocks) == 0 {
+			continue
+		}
+		g := p.ig(fn)
+		for i, in := range g.Nodes {
+			op, f, base, deferred := mutexOp(in)
+			if deferred || f == nil || (op != "Lock" && op != "RLock") {
+				continue
+			}
+			n++
+			rel := p.releaseNodes(g, map[string]string{"Lock": "Unlock", "RLock": "RUnlock"}[op], f)
+			// explicit releases end the section; a deferred release keeps it open until the exit
+			explicit := map[int]bool{}
+			for k := range rel {
+				if _, isD := g.Nodes[k].(*ssa.Defer); !isD {
+					explicit[k] = true
+				}
+			}
+			section := g.ReachAfter(i, explicit, nil)
+			bad := ""
+			var pos = in.Pos()
+			for k := range section {
+				c := callOf(g.Nodes[k])
+				if c == nil || k == i {
+					continue
+				}
+				if _, isGo := g.Nodes[k].(*ssa.Go); isGo {
+					continue
+				}
+				if _, isD := g.Nodes[k].(*ssa.Defer); isD {
+					continue
+				}
+				y := c.StaticCallee()
+				if y == nil || !p.inModule(y) || y.Signature.Recv() == nil || len(c.Args) == 0 || strip(c.Args[0]) != strip(base) {
+					continue
+				}
+				if acquires(y, 3)[f] {
+					bad, pos = fnName(y), g.Nodes[k].Pos()
+				}
+			}
+			if bad != "" {
+				r.Violate("mutex "+ownerName(f)+"."+f.Name()+" re-acquired while held in "+fnName(fn), pos, "between this acquisition and its release the same goroutine calls "+bad+", which acquires the same mutex of the same object: a second Lock blocks for ever, a second RLock blocks as soon as a writer waits in between — and that writer then waits for ever too")
+			}
+		}
+	}
+	r.Check(n > 0, "mutex acquisitions examined for re-entrancy", token.NoPos, fmt.Sprintf("%d acquisitions of struct-field mutexes: no call made while one is held runs a same-receiver method that acquires the same mutex", n))
 }
